@@ -13,7 +13,7 @@ NUM_MACROS = ["V", "W"]             # may appear in arithmetic; never empty-valu
 SRC_MACROS = ["S0", "S1"]           # defined in sources only, one world-wide value each
 
 ROOT = "proj/src"
-IN_DIRS = ["", "d1", "d2", "inc1", "inc2"]     # relative to ROOT
+IN_DIRS = ["", "d1", "d2", "inc1", "inc2", "d1/inc", "d2/inc"]     # relative to ROOT
 EXT_DIR = "proj/ext"                             # outside the code base
 BUILD_IN = "proj/src/build"
 BUILD_OUT = "proj/bld"
@@ -53,6 +53,8 @@ def draw_cfg(r, profile):
         "faults": {},
         "dir_component": r.random() < 0.3,
         "p_uniform": r.choice([0.0, 0.0, 0.5, 0.9]),
+        "p_multiline": r.choice([0.0, 0.3, 0.6]),
+        "p_forced_rel": r.choice([0.0, 0.5]),
         "cpp": r.random() < 0.3,
     }
     if profile == "c18":
@@ -94,6 +96,7 @@ def draw_cfg(r, profile):
         c["spelling"] = r.choice(["simple", "full"])
         c["p_dirlink"] = r.choice([0.2, 0.5, 0.8])
         c["p_filelink"] = r.choice([0.0, 0.2, 0.5])
+        c["p_xfilelink"] = r.choice([0.0, 0.15, 0.4])
         c["p_alias"] = r.choice([0.4, 0.7, 1.0])
         c["p_once"] = r.choice([0.3, 0.6])
         c["p_resens"] = r.choice([0.5, 0.9])
@@ -111,6 +114,7 @@ class Gen:
         self.uid = 0
         self.src_vals = {m: str(r.choice([0, 1, 2])) for m in SRC_MACROS}
         self.missing_pool = ["missing_0.h", "missing_1.h", "gone/missing_2.h"]
+        self.extra_files = {}
 
     # ------------------------------------------------------------------ expressions and items
     def expr(self, depth=0):
@@ -142,6 +146,8 @@ class Gen:
         k = r.random()
         if k < 0.3:
             m = r.choice(SRC_MACROS)
+            if r.random() < self.cfg.get("p_multiline", 0.0):
+                return [["define", m, self.src_vals[m], "ml"]]
             return [["define", m, self.src_vals[m]]]
         if k < 0.5:
             return [["undef", r.choice(FLAG_MACROS + NUM_MACROS + SRC_MACROS)]]
@@ -167,9 +173,12 @@ class Gen:
         if self.cfg["dir_component"] and h.get("dirsp") and r.random() < 0.4:
             sp = r.choice(h["dirsp"])
         if form == "m":
+            val = f'"{sp}"' if r.random() < 0.6 else f"<{sp}>"
+            if r.random() < 0.5:
+                # one macro name re-used for several computed includes, redefined in between
+                return [["undef", "HDR"], ["define", "HDR", val], ["include", "m", "HDR"]]
             self.uid += 1
             mname = f"INC_{self.uid}"
-            val = f'"{sp}"' if r.random() < 0.6 else f"<{sp}>"
             return [["define", mname, val], ["include", "m", mname]]
         return [["include", form, sp]]
 
@@ -201,7 +210,7 @@ class Gen:
                     m = r.choice(SRC_MACROS + SRC_MACROS + FLAG_MACROS + NUM_MACROS)
                     out.append(["cond", [["ifdef", m, [["code", 1]]], ["else", None, [["code", 1]]]]])
             elif k < 0.30 + pd + pi + 0.06:
-                out.append(r.choice([["blank"], ["comment"]]))
+                out.append(r.choice([["blank"], ["comment"], ["bcomment", r.randint(0, 2)]]))
             elif depth < self.cfg["depth"]:
                 chain = []
                 kind = r.choice(["if", "if", "ifdef", "ifndef"])
@@ -289,7 +298,7 @@ class Gen:
                 dirs.append(EXT_DIR)
         # platforms
         plats = []
-        inc_pool = [os.path.join(ROOT, d) for d in ["d1", "d2", "inc1", "inc2"]]
+        inc_pool = [os.path.join(ROOT, d) for d in ["d1", "d2", "inc1", "inc2", "d1/inc", "d2/inc"]]
         if cfg["ext_dir"]:
             inc_pool.append(EXT_DIR)
         for pi in range(cfg["n_plat"]):
@@ -306,6 +315,7 @@ class Gen:
                 ents.append(self.entry(r.choice(srcs), inc_pool, hdrs))
             ents = self.add_db_faults(ents)
             plats.append({"name": name, "db": f"proj/db/{name}.json", "entries": ents})
+        files.update(self.extra_files)
         w = {"root": ROOT, "files": files, "dirs": dirs, "links": links, "platforms": plats,
              "excludes": [], "cbi_config": None}
         if cfg["excludes"]:
@@ -351,8 +361,15 @@ class Gen:
         forced = []
         if hdrs and r.random() < cfg["p_forced"]:
             h = r.choice(hdrs)
-            # absolute, so that the compiler's cwd-first rule for -include is not in play
+            # absolute, so that the compiler's cwd-first rule for -include is not in play ...
             forced.append(os.path.join(TOP, r.choice(h["paths"])))
+            # ... or by bare name when only an include directory of this entry can provide it (the name
+            # exists neither in the root, nor in a build directory, nor beside the main file)
+            via = [d for _, d in incs if os.path.join(d, h["name"]) in h["paths"]]
+            beside = {os.path.dirname(p) for p in h["paths"]}
+            if via and r.random() < cfg.get("p_forced_rel", 0.0) and ROOT not in beside \
+                    and os.path.dirname(src) not in beside:
+                forced[-1] = h["name"]
         comp = r.choice(KNOWN_COMPILERS)
         extra = []
         f = cfg["faults"]
@@ -409,6 +426,19 @@ class Gen:
                 lp = os.path.join(parent, "fl_" + name)
                 links.append({"path": lp, "target": name, "kind": "file"})
                 file_links[f] = lp
+        # file links that live in ANOTHER directory than their target (the metamorphic oracle needs no
+        # compiler reading of "directory of the current file", so these are fair game); names sort
+        # before or after their new siblings
+        for f in sorted(files):
+            if r.random() < self.cfg.get("p_xfilelink", 0.0):
+                parent, name = os.path.split(f)
+                others = [os.path.join(ROOT, d) if d else ROOT for d in ("", "d1", "d2", "inc1")
+                          if (os.path.join(ROOT, d) if d else ROOT) != parent]
+                od = r.choice(others)
+                lp = os.path.join(od, r.choice(["aaa_", "zz_"]) + name)
+                links.append({"path": lp, "target": os.path.relpath(f, od), "kind": "xfile"})
+                if f not in file_links or r.random() < 0.5:
+                    file_links[f] = lp
         if r.random() < 0.4:
             links.append({"path": os.path.join(ROOT, "d2", "dangling.c"), "target": "nothing_here.c", "kind": "dangling"})
         if r.random() < 0.4:
@@ -457,7 +487,8 @@ class Gen:
             return e
         # directory
         if full:
-            dmode = r.choice(["none", "absroot", "abs_in", "abs_out", "rel_in", "rel_out", "rel_dot"])
+            dmode = r.choice(["none", "absroot", "abs_in", "abs_out", "rel_in", "rel_out", "rel_dot",
+                              "sub_abs", "sub_rel", "sub_rel"])
         else:
             dmode = r.choice(["none", "none", "absroot"])
         if dmode == "none":
@@ -477,6 +508,12 @@ class Gen:
         elif dmode == "rel_out":
             base = BUILD_OUT
             e["directory"] = os.path.relpath(BUILD_OUT, ROOT)
+        elif dmode in ("sub_abs", "sub_rel"):
+            # sub-project layout: the command runs in d1 or d2, which both have an "inc" directory
+            sub = "d1" if sem["src"].startswith(os.path.join(ROOT, "d1") + "/") else \
+                ("d2" if sem["src"].startswith(os.path.join(ROOT, "d2") + "/") else r.choice(["d1", "d2"]))
+            base = os.path.join(ROOT, sub)
+            e["directory"] = os.path.join(TOP, alias(base)) if dmode == "sub_abs" else sub + r.choice(["", "/", "/."])
         else:
             base = ROOT
             e["directory"] = "."
@@ -532,6 +569,10 @@ class Gen:
                         {"file": os.path.join(TOP, ROOT, "lib.a"), "command": "ar rcs lib.a s0.o"},
                         {"file": "notes.txt", "arguments": ["gcc", "-c", "notes.txt"]},
                     ])
+                    if r.random() < 0.7:
+                        # the non-source file really exists (an object file left by a build)
+                        name = os.path.basename(e["file"])
+                        self.extra_files[os.path.join(ROOT, name)] = {"lang": "c", "text": "\x7fOBJ not source\n#if 1\n"}
                 else:
                     e = r.choice([{"file": "s0.c", "arguments": []},
                                   {"file": os.path.join(TOP, ROOT, "s0.c"), "command": ""}])
